@@ -557,6 +557,38 @@ func explainE2E(q qspec, docs [][]byte) string {
 			return diffClass(compiled, d, sg, sr)
 		}
 	}
+	// newMatchTree may evaluate a literal sub-expression of fewer than 3 runes with its own regexp (newSubstringMatchTree →
+	// newRegexpMatchTree): try every literal of the tree on its own, as that code compiles it
+	if t, err := syntax.Parse(text, query.VerifRegexpFlags); err == nil {
+		var lits []*syntax.Regexp
+		var walk func(re *syntax.Regexp)
+		walk = func(re *syntax.Regexp) {
+			if re.Op == syntax.OpLiteral {
+				lits = append(lits, re)
+			}
+			for _, s := range re.Sub {
+				walk(s)
+			}
+		}
+		walk(t)
+		for _, l := range lits {
+			p := verifhooks.RegexpString(&syntax.Regexp{Op: syntax.OpLiteral, Rune: l.Rune})
+			if !q.CaseSensitive || l.Flags&syntax.FoldCase != 0 {
+				p = "(?i)" + p
+			}
+			g, err1 := grafana.Compile(p)
+			r2, err2 := re2.Compile(p)
+			if err1 != nil || err2 != nil {
+				continue
+			}
+			for _, d := range docs {
+				sg, sr := g.FindAllIndex(d, -1), r2.FindAllIndex(d, -1)
+				if !eqSpans(sg, sr) {
+					return diffClass(p, d, sg, sr)
+				}
+			}
+		}
+	}
 	return "unexplained"
 }
 
